@@ -165,9 +165,14 @@ func VerifC02DeriveChild(r, priv, hard int) {
 func VerifC02MasterKey(r int) {
 	verifSetup(r)
 	curve := verifCurve{hmacKey: verifBytes("hmackey", 12)}
-	seed := verifBytes("seed", 16)
+	// the seed is a view into a larger buffer of the caller (capacity beyond one HMAC output): neither the
+	// seed nor anything behind it may be written
+	seedBuf := verifBytes("seed", 96)
+	seedBuf0 := append([]byte{}, seedBuf...)
+	seed := seedBuf[:16]
 	seed0 := append([]byte{}, seed...)
 	m, err := NewMasterKey(seed, curve)
+	verifAssert("seed.buffer.unchanged", verifEq(seedBuf, seedBuf0))
 	verifAssert("attempts", len(verifShiftCalls) == r+1)
 	if len(verifShiftCalls) != r+1 {
 		return
